@@ -161,7 +161,14 @@ pub fn run(ctx: &mut Ctx) {
             }
             if finite && !internal_overflow {
                 let ev = kkt::evaluate(&p, &x, &s, &z, &pm.keep, bound, &pm.ceff);
-                if !infeas {
+                // (a returned point with entries beyond 1e150 - the garbage initial factorisation of C05's recorded
+                // finding, ending NumericalError at iteration 0 - overflows the oracle's own evaluation of the
+                // objectives as it does that of the residuals below: nothing recomputed, nothing judged)
+                let obj_overflow = !infeas && (!ev.p_obj.is_finite() || !ev.d_obj.is_finite()) && x.iter().chain(&s).chain(&z).fold(0.0f64, |m, v| m.max(v.abs())) > 1e150;
+                if obj_overflow {
+                    ctx.bump("objective_figures_not_recomputable_(overflow)");
+                }
+                if !infeas && !obj_overflow {
                     // rounding bound of an f64 evaluation: 8 * [64 u (n+m+3) sum|terms|]
                     let tol = 8.0 * ev.slack_obj + 1e-300;
                     if !((res.obj_val - ev.p_obj).abs() <= tol) {
@@ -171,7 +178,7 @@ pub fn run(ctx: &mut Ctx) {
                         fails.push(("obj_val_dual".into(), json!({"reported": problem::fj(res.obj_val_dual), "recomputed": ev.d_obj, "tol": tol})));
                     }
                     ctx.observe_max("obj_err_over_tol", (res.obj_val - ev.p_obj).abs() / tol);
-                } else if !(res.obj_val.is_nan() && res.obj_val_dual.is_nan()) {
+                } else if infeas && !(res.obj_val.is_nan() && res.obj_val_dual.is_nan()) {
                     fails.push(("objective_not_nan".into(), json!({"obj_val": problem::fj(res.obj_val)})));
                 }
                 // residual figures (both kinds of status: figures describe the de-homogenised point)
